@@ -831,9 +831,13 @@ def transform_quantitative_feature(
     # feature's labels associated to each quantile
     feature_values = values_orders[feature]
 
-    # nullable extension dtypes (Int64, Float64...) as numpy floats (pandas.NA as numpy.nan)
+    # nullable extension dtypes (Int64, Float64...) as their numpy counterpart: numpy floats when
+    # there are missing values (pandas.NA as numpy.nan), the same integer/float dtype otherwise
     if is_extension_array_dtype(df_feature.dtype) and is_numeric_dtype(df_feature.dtype):
-        df_feature = df_feature.astype(float)
+        if any(isna(df_feature)):
+            df_feature = df_feature.astype(float)
+        else:
+            df_feature = df_feature.astype(df_feature.dtype.numpy_dtype)
 
     # keeping track of nans
     nans = isna(df_feature)
